@@ -204,12 +204,13 @@ Proof.
   unfold after_offside. intros H N.
   destruct (push_context_of (k t)).
   - destruct (push_ctx _ _); [|discriminate]. inversion H; reflexivity.
-  - destruct (k t) eqn:K; destruct (octx o); cbn [tk_eqb] in H; try contradiction;
-      repeat match type of H with
-      | ret_push _ ?x = _ => destruct x; [|discriminate]
-      | (let (_, _) := ?p in _) = _ => destruct p
-      | (if ?c then _ else _) = _ => destruct c
-      end; inversion H; reflexivity.
+  - destruct (k t) eqn:K; destruct (octx o); cbn [tk_eqb] in H;
+      try (exfalso; apply N; reflexivity);
+      try (inversion H; reflexivity);
+      try (destruct (scan_for_next_block st _); [|discriminate]; inversion H; reflexivity).
+    all: destruct (next_token st) as [nx s1];
+         match type of H with (if ?c then _ else _) = _ => destruct c end;
+         [destruct (scan_for_next_block _ _); [|discriminate]|]; inversion H; reflexivity.
 Qed.
 
 Lemma open_body_W t loc st ret u r st' :
@@ -236,6 +237,8 @@ Ltac bound_all :=
       lazymatch goal with H : WS (set_top_semi true s) <= _ |- _ => fail | _ => pose proof (WS_semi_true s) end
   | |- context [WS (pop_rec ?s)] =>
       lazymatch goal with H : WS (pop_rec s) <= _ |- _ => fail | _ => pose proof (WS_pop_rec s) end
+  | H : context [WS (set_top_semi false ?s)] |- _ =>
+      lazymatch goal with H : WS (set_top_semi false s) <= WS s |- _ => fail | _ => pose proof (WS_semi_false s) end
   | |- context [lt ?x ?s] =>
       lazymatch goal with H : lt x s <= 4 |- _ => fail | _ => pose proof (lt_le x s); pose proof (em_lt_le x s) end
   | |- context [em ?s] =>
@@ -298,7 +301,120 @@ Proof.
     all: try (pose proof (HO K) as CZ; rewrite CZ in * ).
     all: try (match goal with FB : forallb _ ?r = false |- _ => destruct r; [cbn in FB; discriminate FB|] end).
     all: try solve [direct S K C].
-    all: try match goal with |- res_W (SRet _ _) _ _ => idtac "SRET"; match type of K with ?T => idtac T end; match type of C with ?T => idtac T end end.
-    all: try match goal with |- res_W (SCont (virt _ _) _) _ _ => idtac "SCONT"; match type of K with ?T => idtac T end; match type of C with ?T => idtac T end end.
-    all: idtac "REMAIN"; match goal with |- ?g => idtac g end.
-Admitted.
+    (* explicit `in` closing a let / type / rec: the `in` token is emitted *)
+    all: try (match goal with |- res_W (open_body ?a ?b ?c ?d ?e) _ _ =>
+                destruct (open_body a b c d e) eqn:OB; cbn [res_W]; try exact I;
+                [ apply open_body_W in OB; destruct OB as (R1 & R2 & R3 & R4 & R5); subst;
+                  split; [intros NE|rewrite R5; reflexivity];
+                  unfold Phi, Psi, Psi0, head; rewrite R2, R3, R4; cbn [stack set_stack unp toks]; rewrite S;
+                  cbn [WS em W wc octx]; unfold rk; cbn [k virt]; rewrite K; rewrite ?C; cbn [wc];
+                  bound_all; cbn [em WS] in *; lia
+                | exfalso; eapply open_body_no_cont; exact OB ] end).
+    (* the rest of the iteration (after the offside rules) *)
+    all: try (match goal with |- res_W (after_offside ?a ?b ?s) _ _ =>
+                destruct (after_offside a b s) eqn:AO; cbn [res_W]; try exact I;
+                [ pose proof (after_offside_ret _ _ _ _ _ AO ltac:(rewrite K; discriminate)) as RT;
+                  assert (E' : eof_ok s) by exact E;
+                  pose proof (proj2 (after_offside_G _ _ _ _ _ E' AO)) as EE;
+                  split; [intros NE|exact EE];
+                  first [ exfalso; apply NE; rewrite RT; exact K
+                        | apply after_offside_W in AO; [|exact E'|rewrite K; discriminate|rewrite K; discriminate|rewrite K; discriminate];
+                          destruct AO as [AW _]; revert AW; unfold gain, Psi, Psi0; rewrite K; cbn [tk_eqb];
+                          cbn [stack set_stack unp toks]; rewrite ?S;
+                          try rewrite !(set_top_semi_blk _ _ _ _ C); cbn [WS em wc octx]; rewrite ?C; cbn [wc];
+                          intros AW; bound_all; cbn [em WS] in *; lia ]
+                | exfalso; eapply after_offside_no_cont; exact AO ] end).
+    (* offside rule of let / type *)
+    all: match goal with |- context [continue_block ?f ?c ?x ?y] =>
+           destruct (continue_block f c x y) as [[[|] st1]|] eqn:CB; [ | | exact I];
+           destruct (continue_block_W _ _ _ _ _ _ E CB) as (CW & CS & CE);
+           assert (E1 : eof_ok st1) by (unfold eof_ok; rewrite CE; exact E);
+           assert (S1 : stack st1 = o :: rest) by (rewrite CS; exact S) end.
+    all: try (match goal with |- res_W (after_offside ?a ?b ?s) _ _ =>
+                destruct (after_offside a b s) eqn:AO; cbn [res_W]; try exact I;
+                [ pose proof (after_offside_ret _ _ _ _ _ AO ltac:(rewrite K; discriminate)) as RT;
+                  pose proof (proj2 (after_offside_G _ _ _ _ _ E1 AO)) as EE;
+                  split; [intros NE|congruence];
+                  first [ exfalso; apply NE; rewrite RT; exact K
+                        | apply after_offside_W in AO; [|exact E1|rewrite K; discriminate|rewrite K; discriminate|rewrite K; discriminate];
+                          destruct AO as [AW _]; revert AW; unfold gain, Psi, Psi0; rewrite K; cbn [tk_eqb];
+                          rewrite ?S1, ?S; cbn [WS em wc octx]; rewrite ?C; cbn [wc];
+                          intros AW; bound_all; cbn [em WS] in *; lia ]
+                | exfalso; eapply after_offside_no_cont; exact AO ] end).
+    all: try (cbn [res_W]; split; [|split; [exact HO|cbn; exact CE]];
+              unfold Psi, Psi0; cbn [stack set_stack unp toks]; rewrite ?S1, ?S; cbn [tl WS em wc octx];
+              rewrite ?C; cbn [wc]; rewrite ?lt_cons; rewrite ?C; cbn [is_block andb];
+              bound_all; cbn [em WS] in *; lia).
+    all: rewrite S1; cbn [tl]; destruct rest as [|o1 rest1]; [exact I|];
+         match goal with |- res_W (open_body ?a ?b ?c ?d ?e) _ _ =>
+           destruct (open_body a b c d e) eqn:OB; cbn [res_W]; try exact I;
+           [ apply open_body_W in OB; destruct OB as (R1 & R2 & R3 & R4 & R5); subst;
+             split; [intros NE|rewrite R5; cbn; exact CE];
+             unfold Phi, Psi, Psi0, head; rewrite R2, R3, R4; cbn [stack set_stack unp toks]; rewrite S;
+             cbn [WS em W wc octx]; unfold rk; cbn [k virt]; rewrite ?K; rewrite ?C; cbn [wc];
+             bound_all; cbn [em WS] in *; lia
+           | exfalso; eapply open_body_no_cont; exact OB ] end.
+Qed.
+
+Lemma run_loop_W : forall n fuel t st r st', eof_ok st -> hand_ok t ->
+  run_loop n fuel t st = LTok r st' ->
+  (k r <> TEOF -> Phi st' + 1 <= Psi t st) /\ eof st' = eof st.
+Proof.
+  induction n as [|n IH]; intros fuel t st r st' E HO H; cbn [run_loop] in H; [discriminate|].
+  pose proof (step_W fuel t st E HO) as S.
+  destruct (step fuel t st) as [r1 s1|t1 s1| | |]; try discriminate.
+  - inversion H; subst. exact S.
+  - cbn [res_W] in S. destruct S as (A & B & C).
+    assert (E1 : eof_ok s1) by (unfold eof_ok; rewrite C; exact E).
+    destruct (IH _ _ _ _ _ E1 B H) as [X Y]. split; [intros NE; specialize (X NE); lia|congruence].
+Qed.
+
+Lemma lt_same_kind t t' s : k t' = k t -> colz t' = colz t -> lt t' s = lt t s.
+Proof. intros A B. unfold lt. rewrite A, B. reflexivity. Qed.
+
+(* every call that emits a token other than EOF lowers the potential *)
+Lemma call_W fuel st r st' : eof_ok st ->
+  layout_next_token fuel st = LTok r st' -> k r <> TEOF -> Phi st' < Phi st /\ eof st' = eof st.
+Proof.
+  unfold layout_next_token. intros E H NE. destruct (next_token st) as [t st1] eqn:NT.
+  destruct (next_token_W _ _ _ E NT) as (HH & HW & HS & HE).
+  assert (E1 : eof_ok st1) by (unfold eof_ok; rewrite HE; exact E).
+  assert (Main : forall t1, k t1 = k t -> colz t1 = colz t -> hand_ok t1 ->
+            run_loop (loop_fuel st1) fuel t1 st1 = LTok r st' -> Phi st' < Phi st /\ eof st' = eof st).
+  { intros t1 K1 C1 H1 RL. destruct (run_loop_W _ _ _ _ _ _ E1 H1 RL) as [X Y]. specialize (X NE).
+    split; [|congruence].
+    assert (PE : Psi t1 st1 = Phi st).
+    { unfold Psi, Psi0, Phi. rewrite <- HH, HS, (lt_same_kind t t1 _ K1 C1). unfold rk. rewrite K1. fold (rk t). lia. }
+    lia. }
+  destruct (k t) eqn:K.
+  2-30: (apply (Main t); [exact K|reflexivity|intros Z; rewrite K in Z; discriminate Z|exact H]).
+  destruct (stack st1) eqn:S.
+  - inversion H; subst. exfalso. apply NE. reflexivity.
+  - apply (Main (MTok TEOF (code t) (line t) 0%N (mlo t) (mhi t))); [reflexivity|unfold colz; cbn [k col]; rewrite K; reflexivity|intros _; reflexivity|exact H].
+Qed.
+
+Lemma run_W : forall n fuel st acc, eof_ok st -> Phi st < n -> forall out, run n fuel st acc <> RFuel out.
+Proof.
+  induction n as [|n IH]; intros fuel st acc E HP out; [lia|]. cbn [run].
+  destruct (layout_next_token fuel st) as [t st'| | | |] eqn:L; try discriminate.
+  - destruct (tk_eqb (k t) TEOF) eqn:KE.
+    + destruct (k t); try discriminate.
+    + assert (NE : k t <> TEOF) by (intros Z; rewrite Z in KE; discriminate).
+      destruct (call_W _ _ _ _ E L NE) as [A B].
+      assert (E1 : eof_ok st') by (unfold eof_ok; rewrite B; exact E).
+      destruct (k t); try (apply IH; [exact E1|lia]). exfalso; apply NE; reflexivity.
+  - exfalso. eapply layout_step_terminates; exact L.
+Qed.
+
+Lemma W_le : forall l, W l <= 100 * length l.
+Proof. induction l as [|x l IH]; cbn [W length]; [lia|]. pose proof (rk_le x). lia. Qed.
+
+(* The whole run of the model ends within 100·|raw| + 10 calls of layout_next_token (each of which
+   ends within 2·|contexts| + 3 iterations, LayoutProofs.layout_step_terminates): it never runs out
+   of fuel, for every token stream that ends in EOF. *)
+Theorem layout_model_terminates raw :
+  k (last raw (MTok TEOF 12 0 1 0 0)) = TEOF -> forall out, layout raw <> RFuel out.
+Proof.
+  intros E out. unfold layout. apply run_W; [exact E|].
+  unfold Phi, head. cbn [unp toks stack W WS em lt]. pose proof (W_le raw). lia.
+Qed.
